@@ -465,6 +465,22 @@ def check_C04(chk):
             if why:
                 chk.failing_input("a receiver polled by its first owner and then sent inside a message: " + why, {"build": fl, "scenario": l, "observed": r}, key="polled:%s:%s" % (fl, l))
         chk.coverage.setdefault("polled_then_transferred_receivers", {})[fl] = len(pby)
+    # a message that embeds endpoints and follows, on the same channel, a multi-packet message (itself embedding endpoints) whose sender
+    # process died half-way: the later message must arrive with exactly its own endpoints (crash driver, every kill point)
+    from . import props_conc as PCN
+    shapes = PCN.crash_shapes(4096)
+    ccases, cid = [], itertools.count(1)
+    for npk in (2, 3):
+        ncalls = 1 + (3 + npk) + 2 + 1
+        for k in range(0, ncalls + 2):
+            ccases.append({"id": next(cid), "len": shapes[npk], "k": k, "survivor": 1, "natt": 2, "observe": ["recv", "try", "select", "timeout"][k % 4], "npk": npk, "S": 4096})
+    for it in PCN.run_crash(bins["default"], 4096, ccases):
+        why = PCN.crash_oracle(it)
+        if why:
+            c = it["case"]
+            chk.failing_input("endpoints embedded in the message after an interrupted one (sender killed before its call %d of a %d-packet send carrying 2 endpoints): %s" % (c["k"], c["npk"], why),
+                              {"input": c, "child_progress": it["child"], "observed": it["rec"]}, key="c04crash:npk=%d k=%d" % (c["npk"], c["k"]))
+    chk.coverage["endpoints_after_interrupted_message_scenarios"] = len(ccases)
     # values whose serialisation itself sends (nested sends with their own endpoints): every level's endpoints must arrive
     # connected to what was embedded at that level (script driver shared with C14; successful programs only matter here)
     from . import props_codec as PC
